@@ -119,6 +119,12 @@ pub fn specs(tier: &str) -> Vec<ExpSpec> {
         let c = vol::cfg_from("b32-low-st0", b.finish(), Some(cands));
         v.push(ExpSpec::new(c, alphabet(512), if th { 4 } else { 3 }));
     }
+    // two free clusters: a short history fills the volume, so calls that fail for lack of space (after earlier
+    // changes of the same session) are explored
+    for ft in [FatType::Fat12, FatType::Fat16, FatType::Fat32] {
+        let c = with_status(&vol::tiny_low(ft, 2, 16), 0);
+        v.push(ExpSpec::new(c, alphabet(512), if th { 5 } else { 4 }));
+    }
     for ft in [FatType::Fat12, FatType::Fat16, FatType::Fat32] {
         let cfg = vol::tiny_with(ft, 8, 16);
         for status in 0..4u8 {
